@@ -83,4 +83,6 @@ def c16(quick):
         S.append((D(mode=mode, nj=2, pre=3, bs=1, calls=[dict(n=6, fail=(4,), cons="free"), dict(n=2)]), "random", rnd))
         S.append((D(mode=mode, nj=2, pre=4, bs=1, inline=True, calls=[dict(n=6, cons="free")]), "random", rnd))
         S.append((D(mode=mode, nj=2, pre=2, bs=1, calls=[dict(n=4)]), "dfs", lim))
+        S.append((D(mode=mode, nj=2, pre=2, bs=1, managed="per_call", calls=[dict(n=4, cons="leave"), dict(n=3, cons="leave"), dict(n=2)]), "dfs", lim))
+        S.append((D(mode=mode, nj=2, pre=3, bs=2, managed="per_call", calls=[dict(n=9, cons="leave"), dict(n=3)]), "random", rnd))
     return S
